@@ -140,7 +140,7 @@ func (fv *FuncVC) call(v ssa.Value, cc *ssa.CallCommon, instr ssa.Instruction) {
 			if ld, ok := rootOf(cc.Value).(*ssa.UnOp); ok && ld.Op == token.MUL {
 				if fa, ok := ld.X.(*ssa.FieldAddr); ok && fa.X == ssa.Value(fv.Fn.Params[0]) {
 					if pt, ok := fa.X.Type().Underlying().(*types.Pointer); ok {
-						if st, ok := pt.Elem().Underlying().(*types.Struct); ok && g.fields[st.Field(fa.Field).Name()] {
+						if st, ok := pt.Elem().Underlying().(*types.Struct); ok && (g.fields[st.Field(fa.Field).Name()] || g.calls[st.Field(fa.Field).Name()]) {
 							h := fv.heapTerm(fv.cur, "held."+heapKey(pt.Elem(), g.mu), SBool)
 							recv := fv.operand(fa.X)
 							fv.oblige("heldcall", cc.Method.Name(), nil, pos, app("select", h.S, recv.T.S), "the call "+st.Field(fa.Field).Name()+"."+cc.Method.Name()+" happens while "+g.mu+" is held: calls into the wrapped object never overlap")
